@@ -111,6 +111,8 @@ def prep_worker(fam):
     def conf2(cfg):
         conf(cfg)
         cfg.sym_classes.pop(("self",), None)
+        cfg.watch_calls = {"._prepare_items"}
+        cfg.guard_pred = lambda k: k[0] in ("check", "truthy", "isinstance")
     it, outs = run_function(ctx.p, ctx.H, fi, [Ref(addr)], {}, configure=conf2, state=st, family=fam)
     rows = []
     for o in outs:
@@ -127,7 +129,12 @@ def prep_worker(fam):
                 if not any(k[0] == "check" and k[2].endswith(".item_type") and v and k[1] == repr(("tok", tuple(e[5].split("/")))) for k, v in g.items()):
                     if not any(k[0] == "check" and k[2].endswith(".item_type") and v for k, v in g.items()):
                         unchecked_writes.append((e[1], e[5], e[-1]))
+        nonempty = any(k[0] == "truthy" and k[1] == ("incoming",) and v for k, v in o.state.facts.items())
+        exact_builtin = any(k[0] == "isinstance" and k[1] == ("incoming",) and k[2] in ("builtins.list", "builtins.dict", "builtins.set") and v
+                            for k, v in o.state.facts.items())
         rows.append({"collection": vrepr(coll), "whole_checked": whole, "unchecked_writes": unchecked_writes,
+                     "nonempty": nonempty, "exact_builtin": exact_builtin,
+                     "items_prepared": any(e[0] == "CALL" for e in o.state.trace),
                      "desc": describe_path(o, 6)})
     return {"fam": fam, "rows": rows, "paths": len(outs), "functions": sorted(it.functions_entered)}
 
@@ -230,6 +237,10 @@ def check(ctx, rep: Report):
                 bad.append("incoming collection accepted without passing check_type(collection, attr_spec.type)")
             if row["unchecked_writes"]:
                 bad.append(f"element written unchecked: {row['unchecked_writes'][0]}")
+            if row["collection"] == "incoming" and row["whole_checked"] and row["nonempty"] and not row["items_prepared"] \
+                    and not row["exact_builtin"]:
+                bad.append("a non-empty incoming collection is accepted without passing its elements through the (type-checking) item pass: "
+                           "check_type only tests isinstance for keyed / custom generic containers, so ill-typed elements are stored")
         rep.oblige("C03.PREP", f"{MUTATOR_OF[r['fam']]}.prepare", not bad, f"{len(r['rows'])} normal paths")
         rep.sample({"entry": f"{MUTATOR_OF[r['fam']]}.prepare", "rows": r["rows"][:2]})
         for b in sorted(set(bad)):
